@@ -26,6 +26,9 @@ type Spec struct {
 	// FakeTimeWorkers > 0: that many additional workers are started from the binary built with the
 	// runtime's faketime tag (<binary>-ft); they run the EachFT case groups on a virtual process clock.
 	FakeTimeWorkers int
+	// Int32Worker: one additional worker is started from the binary built for a platform where int has 32 bits
+	// (<binary>-386, GOARCH=386); it runs the Each32 case groups only.
+	Int32Worker bool
 	// EnvFn returns extra environment variables for the workers, given the run directory.
 	EnvFn func(dir string) []string
 	Run   func(c *Ctx)
@@ -153,9 +156,20 @@ func RunParent(spec *Spec, opt Options) int {
 			return 2
 		}
 	}
-	for k := 0; k < n+nft; k++ {
+	n32 := 0
+	bin32 := os.Args[0] + "-386"
+	if spec.Int32Worker {
+		if _, err := os.Stat(bin32); err != nil {
+			fmt.Printf("INCONCLUSIVE property=%s reason=the worker binary for a 32-bit platform (%s) was not built\n", spec.ID, bin32)
+			return 2
+		}
+		n32 = 1
+	}
+	for k := 0; k < n+nft+n32; k++ {
 		i, pool, bin, tag := k, n, os.Args[0], ""
-		if k >= n {
+		if k >= n+nft {
+			i, pool, bin, tag = 0, 1, bin32, "386-"
+		} else if k >= n {
 			i, pool, bin, tag = k-n, nft, ftBin, "ft-"
 		}
 		w := &wk{
@@ -176,7 +190,7 @@ func RunParent(spec *Spec, opt Options) int {
 		if spec.EnvFn != nil {
 			w.cmd.Env = append(w.cmd.Env, spec.EnvFn(dir)...)
 		}
-		if tag != "" {
+		if tag == "ft-" {
 			// with more than one P the faketime runtime of go 1.23 livelocks in GC mark termination
 			// (forEachP never completes while the clock is being advanced): one P per virtual-clock worker
 			w.cmd.Env = append(w.cmd.Env, "GOMAXPROCS=1")
